@@ -13,10 +13,13 @@
 //!   slice <isa> <ty> <fn> <unroll> <opk> <len> <seed>
 //!   slicesweep <isa> <ty> <fn> <unroll> <opk> <seed>   all lengths 0..=4*lanes+3, both placements
 //!   vm <fn> <seed> <n>                             rten-vecmath unary op on all ISAs
+//!   reduce <red> <family> <len> <seed>             rten-vecmath reducer (MinMax, Sum, ...) on all ISAs
+//!   reducesweep <red> <family> <seed>              every length 0..=4*16+3, all ISAs, judged in Rust
 use rten_simd::verif::{available_isas, dispatch_on};
 use rten_simd::{Isa, SimdOp, SimdUnaryOp};
 use std::io::{BufRead, Write};
 use vh_simd::lanes::*;
+use vh_simd::reducers::*;
 use vh_simd::slices::*;
 use vh_simd::vecops::*;
 use vh_simd::*;
@@ -490,7 +493,7 @@ fn slice_lens(isa: &str, ty: u32) -> usize {
 fn slice_run(isa: &str, ty: u32, fn_: u32, unroll: u32, opk: u32, seed: u64, from: usize, to: usize) -> Vec<(usize, bool, Vec<i64>)> {
     let mut res = vec![];
     for len in from..=to {
-        let xs = slice_input(ty, len, seed);
+        let xs = slice_input(ty, fn_, opk, len, seed);
         let r = std::panic::catch_unwind(|| {
             let r0 = run_slice(isa, ty, fn_, unroll, opk, &xs, 0);
             let r1 = run_slice(isa, ty, fn_, unroll, opk, &xs, 1);
@@ -514,7 +517,7 @@ fn slice_line(p: &[&str]) -> (String, String) {
     let lanes = lanes_of(isa, ty);
     let r = slice_run(isa, ty, fn_, unroll, opk, seed, len, len);
     let (_, fault, out) = &r[0];
-    let xs = slice_input(ty, len, seed);
+    let xs = slice_input(ty, fn_, opk, len, seed);
     let kind = if len == 0 { "empty" } else if len % lanes == 0 { "full" } else if len < lanes { "tailonly" } else { "tail" };
     (
         format!("slice-{}-{}-{}-{}", isa, slice_ty_name(ty), S_NAMES[fn_ as usize], kind),
@@ -531,7 +534,7 @@ fn slicesweep_line(p: &[&str]) -> (String, String) {
     let r = slice_run(isa, ty, fn_, unroll, opk, seed, 0, to);
     let mut bad: Option<usize> = None;
     for (len, fault, out) in &r {
-        let xs = slice_input(ty, *len, seed);
+        let xs = slice_input(ty, fn_, opk, *len, seed);
         let want = ref_slice(ty, fn_, unroll, opk, lanes, &xs);
         if *fault || *out != want {
             bad = Some(*len);
@@ -623,6 +626,37 @@ fn vm_line(p: &[&str]) -> (String, String) {
     (format!("vm-{}", VM_NAMES[f as usize]), format!("CVm {} {} [{}]%Z", f, xs[pick].to_bits(), rs.join(";")))
 }
 
+// ---------------------------------------------------------------- vecmath reducers
+fn reduce_line(p: &[&str]) -> (String, String) {
+    let n = |i: usize| -> u64 { p[i].parse().unwrap() };
+    let (red, family, len, seed) = (n(1) as u32, n(2) as u32, n(3) as usize, n(4));
+    let xs = reducer_input(red, family, len, seed);
+    let rs: Vec<String> = available_isas().iter().map(|isa| coq_list_z(&run_reducer(isa, red, &xs))).collect();
+    (
+        format!("reduce-{}-fam{}-{}", R_NAMES[red as usize], family, if len == 0 { "empty" } else if len % 16 == 0 { "full" } else { "tail" }),
+        format!("CReduce {} {} [{}]", red, coq_list_z(&xs), rs.join(";")),
+    )
+}
+fn reducesweep_line(p: &[&str]) -> (String, String) {
+    let n = |i: usize| -> u64 { p[i].parse().unwrap() };
+    let (red, family, seed) = (n(1) as u32, n(2) as u32, n(3));
+    let isas = available_isas();
+    let mut bad: Option<usize> = None;
+    let to = 4 * 16 + 3;
+    for len in 0..=to {
+        let xs = reducer_input(red, family, len, seed);
+        let want = ref_reducer(red, &xs);
+        if isas.iter().any(|isa| run_reducer(isa, red, &xs) != want) {
+            bad = Some(len);
+            break;
+        }
+    }
+    (
+        format!("reducesweep-{}-fam{}", R_NAMES[red as usize], family),
+        format!("CReduceSweep {} {} {} {}", red, family, to + 1, bad.map_or("None".to_string(), |l| format!("(Some {}%N)", l))),
+    )
+}
+
 // ---------------------------------------------------------------- gen / exec
 fn shifts_for(ty: u32, thorough: bool) -> Vec<u32> {
     let b = ty_bits(ty);
@@ -659,6 +693,8 @@ fn generate(seed: u64, n: usize, tier: &str, out: &mut impl Write) {
                 for f in [S_MAP_INPLACE, S_APPLY, S_ITER, S_FOLD_UNROLL] {
                     writeln!(out, "slicesweep {} {} {} 2 0 {}", isa, ty, f, seed).unwrap();
                 }
+                writeln!(out, "slicesweep {} {} {} 1 1 {}", isa, ty, S_FOLD_N, seed).unwrap();
+                writeln!(out, "slicesweep {} {} {} 2 2 {}", isa, ty, S_FOLD_N_UNROLL, seed).unwrap();
             }
             for ty in 0..5u32 {
                 for v in 0..N_VEC_OPS {
@@ -725,7 +761,9 @@ fn generate(seed: u64, n: usize, tier: &str, out: &mut impl Write) {
             let lanes = lanes_of(isa, ty);
             for f in 0..N_SLICE_FNS {
                 for u in unrolls(f) {
-                    let opks: Vec<u32> = if f <= S_APPLY { vec![0, 1] } else { vec![0] };
+                    // map functions: opk = vector function; folds: opk = data family (0 mixed, 1 all positive,
+                    // 2 all negative, 3 around +100, 4 around -100) -- zero is not in the range of 1..4
+                    let opks: Vec<u32> = if f <= S_APPLY { vec![0, 1] } else if f >= S_FOLD { vec![0, 1, 2, 3, 4] } else { vec![0] };
                     for opk in opks {
                         writeln!(out, "slicesweep {} {} {} {} {} {}", isa, ty, f, u, opk, seed).unwrap();
                         let mut lens = vec![0, 1, lanes - 1, lanes, lanes + 1, 2 * lanes - 1, 2 * lanes, 3 * lanes + 1, 4 * lanes + 3,
@@ -740,12 +778,31 @@ fn generate(seed: u64, n: usize, tier: &str, out: &mut impl Write) {
                         lens.dedup();
                         // keep the Coq side small: a third of the lengths per combination in the quick tier
                         let pickd = (ty + 3 * f + 5 * u + 7 * opk) as usize;
+                        // the extra data families of the folds are judged at every length by the slicesweep line;
+                        // only a third of those combinations also send one length to Coq in the quick tier
+                        let sparse = !thorough && f >= S_FOLD && opk >= 1;
                         for (i, len) in lens.iter().enumerate() {
-                            if thorough || i == pickd % lens.len() || (*len == lanes + 1 && pickd % 2 == 0) {
+                            if sparse && (pickd % 3 != 0 || *len != lanes + 1) {
+                                continue;
+                            }
+                            if thorough || i == pickd % lens.len() || (*len == lanes + 1 && pickd % 2 == 0) || sparse {
                                 writeln!(out, "slice {} {} {} {} {} {} {}", isa, ty, f, u, opk, len, seed).unwrap();
                             }
                         }
                     }
+                }
+            }
+        }
+    }
+    // 2b. rten-vecmath reducers built on the folds: every length on every ISA (judged in Rust) + a sample for Coq
+    for red in 0..N_REDUCERS {
+        for family in 0..5u32 {
+            writeln!(out, "reducesweep {} {} {}", red, family, seed).unwrap();
+            let mut lens = vec![0usize, 1, 3, 4, 5, 9, 16, 17, 20, 24, 33, 67];
+            lens.push(rng.below(68) as usize);
+            for (i, len) in lens.iter().enumerate() {
+                if thorough || (i + (red + family) as usize) % 4 == 0 {
+                    writeln!(out, "reduce {} {} {} {}", red, family, len, seed).unwrap();
                 }
             }
         }
@@ -797,6 +854,8 @@ fn exec_line(line: &str) -> String {
         "slice" => slice_line(&p),
         "slicesweep" => slicesweep_line(&p),
         "vm" => vm_line(&p),
+        "reduce" => reduce_line(&p),
+        "reducesweep" => reducesweep_line(&p),
         _ => panic!("unknown input line {:?}", line),
     };
     format!("{}\t{}\t({})", tag, line, term)
